@@ -678,12 +678,33 @@ async def scenario_update():
     return (await scenario_owner()) or (await scenario_token_replay())
 
 
-SCENARIOS = {'job-log': scenario_job_log, 'billing-jobs': scenario_billing_jobs, 'billing-listing': scenario_billing_listing, 'update': scenario_update, 'token-replay-ids': scenario_token_replay_ids, 'wrappers': scenario_wrappers, 'membership': scenario_membership, 'owner': scenario_owner, 'token-replay': scenario_token_replay, 'routes': scenario_routes}
+async def scenario_authenticator():
+    """the real get_authenticator() under HAIL_TERRA unset / empty / set: callers are trusted without credentials only in the last"""
+    saved = os.environ.get('HAIL_TERRA')
+    try:
+        for label, val in (('unset', None), ('empty', ''), ('set', '1')):
+            if val is None:
+                os.environ.pop('HAIL_TERRA', None)
+            else:
+                os.environ['HAIL_TERRA'] = val
+            a = gear_auth.get_authenticator()
+            trusting = isinstance(a, gear_auth.TrustedSingleTenantAuthenticator)
+            if trusting != (label == 'set'):
+                return {'confirmed': True, 'what': 'with HAIL_TERRA %s the routes are guarded by %s: callers without credentials are %s' % (label, type(a).__name__, 'accepted as developers' if trusting else 'checked although this is the single-tenant deployment'), 'input': {'HAIL_TERRA': val}}
+    finally:
+        if saved is None:
+            os.environ.pop('HAIL_TERRA', None)
+        else:
+            os.environ['HAIL_TERRA'] = saved
+    return None
+
+
+SCENARIOS = {'authenticator': scenario_authenticator, 'job-log': scenario_job_log, 'billing-jobs': scenario_billing_jobs, 'billing-listing': scenario_billing_listing, 'update': scenario_update, 'token-replay-ids': scenario_token_replay_ids, 'wrappers': scenario_wrappers, 'membership': scenario_membership, 'owner': scenario_owner, 'token-replay': scenario_token_replay, 'routes': scenario_routes}
 
 
 async def main():
     want = payload.get('scenario', 'all')
-    order = [want] if want in SCENARIOS else ['wrappers', 'membership', 'owner', 'routes', 'billing-listing', 'job-log', 'billing-jobs']
+    order = [want] if want in SCENARIOS else ['wrappers', 'membership', 'owner', 'routes', 'billing-listing', 'job-log', 'billing-jobs', 'authenticator']
     ran = []
     for s in order:
         try:
